@@ -39,8 +39,4 @@ def run(ctx, res):
     r3.rule_replicated_draw(S, res)
     # the claimed check bit of the aShare round arrives with MACs under the recipients' keys and
     # must be MAC-checked before it selects d0/d1 (root of the C07 leak as well)
-    mine = [c for c in cs if "fashare ver" in c.labels and {"CMP", "DELTA"} <= c.ing]
-    if mine:
-        res.ok("R2.1", "fashare ver|claimed-bit-mac", mine[0].where(), "claimed bit is MAC-checked with the own key and Delta")
-    else:
-        res.bad("R2.1", "fashare ver|claimed-bit-mac", "the check bit a peer claims in the aShare decommitment comes with a MAC under the own key that is never compared with key ^ bit*Delta: n-1 colluding peers get a wrong bit accepted", "src/mpc/faand.rs (fashare, step 3c)")
+    r2.rule_claimed_bit(S, res, cs)
